@@ -157,9 +157,37 @@ def program_value_key(v, colname: str) -> dict:
     return base
 
 
+def program_strfns() -> dict:
+    """every string-valued function as *both* operands of a concatenation (and of a LIKE-based predicate): the result of a string
+    function must still be a string for the SQL renderer (`||`, not numeric `+`), also when no literal or plain column stands next to it.
+    ASCII lower-case data with blanks only, so that SQLite's TRIM / LOWER agree with Polars (finding D74 is about other characters)."""
+    s, u = {"col": ["t0", "s"]}, {"col": ["t0", "u"]}
+    fns = {
+        "strip": lambda x: {"fn": "str_strip", "args": [x]}, "lower": lambda x: {"fn": "str_lower", "args": [x]},
+        "upper": lambda x: {"fn": "str_upper", "args": [x]}, "repl": lambda x: {"fn": "str_replace_all", "args": [x, {"lit": "a"}, {"lit": "b"}]},
+        "slice": lambda x: {"fn": "str_slice", "args": [x, {"lit": 0}, {"lit": 2}]}, "fill": lambda x: {"fn": "fill_null", "args": [x, {"lit": "-"}]},
+        "coal": lambda x: {"fn": "coalesce", "args": [x, x]}, "hmax": lambda x: {"fn": "horizontal_max", "args": [x, x]},
+        "cast": lambda x: {"cast": {"fn": "str_len", "args": [x]}, "to": "string"},
+    }
+    cols = []
+    for a, fa in fns.items():
+        for b, fb in fns.items():
+            cols.append([f"{a}_{b}", {"fn": "add", "args": [fa(s), fb(u)]}])
+        if a != "upper":     # SQLite's LIKE-based predicates are case-insensitive (DESIGN section 4.5): no upper-case text under them
+            cols.append([f"{a}_sw", {"fn": "str_starts_with", "args": [{"fn": "add", "args": [fa(s), fa(u)]}, {"lit": "a"}]}])
+    data_s = ["a", " ab ", None, "", "b a", "  ", "12", "ba"]
+    data_u = ["b", "a ", "x", None, " 3", "", "7", " ab"]
+    return dict(
+        tables=[dict(name="g", cols=[dict(name="id", dtype="int64", vals=list(range(len(data_s)))), dict(name="s", dtype="string", vals=data_s),
+                                     dict(name="u", dtype="string", vals=data_u)])],
+        stmts=[dict(id="t0", op="source", table="g"), dict(id="t1", op="mutate", src="t0", cols=cols),
+               dict(id="t3", op="arrange", src="t1", by=[{"c": "id"}]), dict(id="x", op="export", src="t3", ordered=True)])
+
+
 def value_stream():
     diffs, n = [], 0
     progs = [(v, cn, program_value(v, cn)) for v, cn in VALUE_CASES] + [(v, cn, program_value_key(v, cn)) for v, cn in VALUE_CASES if v is not None]
+    progs.append(("<string functions on both sides of +>", "s", program_strfns()))
     for v, cn, prog in progs:
         res = {}
         for be in ("polars", "sqlite"):
